@@ -64,6 +64,9 @@ def discharge(ob, timeout_ms=20000, seed=0, both=False):
     for p in ob.pc:
         s.add(p)
     if ob.expect_sat:
+        if os.environ.get('PYVC_DUMP') and os.environ['PYVC_DUMP'] in ob.name:
+            with open(f'/tmp/pyvc-dump-{os.getpid()}-cover-{abs(hash(ob.name + str(len(ob.pc)))) % 100000}.smt2', 'w') as f_:
+                f_.write('; ' + ob.name + '\n' + s.to_smt2())
         r = s.check()
         dt = time.time() - t0
         if r == z3.sat:
@@ -90,6 +93,10 @@ def discharge(ob, timeout_ms=20000, seed=0, both=False):
     # portfolio: z3 briefly, then cvc5 (far better on sequences), then z3 with the full budget
     first = min(int(timeout_ms), 2500)
     s.set('timeout', first)
+    if os.environ.get('PYVC_DUMP') and os.environ['PYVC_DUMP'] in ob.name:
+        # developer aid: keep the query of the obligations whose name contains $PYVC_DUMP
+        with open(f'/tmp/pyvc-dump-{os.getpid()}-{abs(hash(ob.name + str(len(ob.pc)))) % 100000}.smt2', 'w') as f_:
+            f_.write('; ' + ob.name + '\n' + s.to_smt2())
     r = s.check()
     smt2 = None
     if r == z3.unknown or both:
